@@ -5,8 +5,8 @@ Each entry: id, property, file, old text, new text, expect (substring of a viola
 M = []
 
 
-def mut(id, prop, file, old, new, expect, note="", extra=None):
-    M.append({"id": id, "prop": prop, "file": file, "old": old, "new": new, "expect": expect, "note": note, "extra": extra or []})
+def mut(id, prop, file, old, new, expect, note="", extra=None, base=None):
+    M.append({"id": id, "prop": prop, "file": file, "old": old, "new": new, "expect": expect, "note": note, "extra": extra or [], "base": base})
 
 
 A = "src/async_io/mod.rs"
@@ -1255,3 +1255,74 @@ mut("c01-benign-inline-make-cgivar", "C01", RQ,
             |(n, v)| (cgi::OwnedVarName::from_compact(CompactString::from_utf8_lossy(n)), SmallBytes::from_slice(v)),
         ));""",
     None, "helper inlined at one call site")
+
+
+# ---- compound: a refactoring from selftest/benign first, then a breaking edit of the refactored code -------------------
+# (the generalised matchers must keep their detecting power on the forms they were generalised for)
+mut("x-c15-split-buffers-bit-not-cleared", "C15", VI,
+    """Ok(Self(u32::from_be_bytes([first & !Self::LONG_BIT, b1, b2, b3])))""",
+    """Ok(Self(u32::from_be_bytes([first, b1, b2, b3])))""",
+    "O4/read/forms", "long form keeps the marker bit", base="s5-r4")
+mut("x-c15-split-buffers-wrong-order", "C15", VI,
+    """Ok(Self(u32::from_be_bytes([first & !Self::LONG_BIT, b1, b2, b3])))""",
+    """Ok(Self(u32::from_be_bytes([first & !Self::LONG_BIT, b2, b1, b3])))""",
+    "O4/read/forms", "bytes swapped", base="s5-r4")
+mut("x-c15-helper-threshold-le", "C15", VI,
+    """        self.0 < Self::LONG_BIT as u32""",
+    """        self.0 <= Self::LONG_BIT as u32""",
+    "O4/write/forms", "128 encoded in the short form", base="s5-r5")
+mut("x-c15-helper-long-encoding-no-bit", "C15", VI,
+    """        [b0 | Self::LONG_BIT, b1, b2, b3]""",
+    """        [b0, b1, b2, b3]""",
+    "O4/write/forms", "long form without the marker bit", base="s5-r5")
+mut("x-c15-tail-slice-off-by-one", "C15", VI,
+    """            &long[3..]""",
+    """            &long[2..]""",
+    "O4/write/forms", "short form writes two bytes", base="q5-r6")
+mut("x-c05-inlined-compaction-dest", "C05", "src/parser/request.rs",
+    """            self.input.copy_within(used_len..self.input_len, 0);""",
+    """            self.input.copy_within(used_len..self.input_len, 1);""",
+    "R5.4/move_input", "remainder moved to offset 1 (compaction written out in parse)", base="s1-r5")
+mut("x-c05-inlined-compaction-len", "C05", "src/parser/request.rs",
+    """        self.input_len = rem_len;
+""",
+    """        self.input_len = used_len;
+""",
+    "R5.4/move_input", "input_len set to the consumed length", base="s1-r5")
+mut("x-c19-loop-one-side-unfolded", "C19", "src/cgi/mod.rs",
+    """            match l.to_ascii_uppercase().cmp(&r.to_ascii_uppercase()) {""",
+    """            match l.cmp(&r.to_ascii_uppercase()) {""",
+    "R19.3/varname-cmp", "left byte not folded", base="s6-r8")
+mut("x-c19-loop-tie-break-reversed", "C19", "src/cgi/mod.rs",
+    """        lhs.len().cmp(&rhs.len())""",
+    """        rhs.len().cmp(&lhs.len())""",
+    "R19.3/varname-cmp", "longer name sorts first", base="s6-r8")
+mut("x-c04-tuple-match-duplicate-begin", "C04", "src/parser/stream.rs",
+    """            (fcgi::RecordType::BeginRequest, false) => {""",
+    """            (fcgi::RecordType::BeginRequest, _) => {""",
+    "R4.1/stream/begin-duplicate", "a duplicate BeginRequest of the running request is answered CantMpxConn", base="s2-r3")
+mut("x-c08-future-newtype-no-flush", "C08", A,
+    """            ready!(Pin::new(&mut *this).poll_output(cx))?;
+            this.parser.compress();""",
+    """            this.parser.compress();""",
+    "async_io::Request::poll_input/wait-input[Fstr]", "site 2 of the fixed defect, reached through a hand-written Future", base="s3-r1")
+mut("x-c20-closure-count", "C20", "src/cgi/response.rs",
+    """        Ok(name.len() + val.len() + 3)""",
+    """        Ok(name.len() + val.len() + 2)""",
+    "R20.2/write_headers/count", "count misses the line break (line written by a local closure)", base="s6-r6")
+mut("x-c17-assoc-const-wrong-type", "C17", "src/protocol/body.rs",
+    """    const RTYPE: RecordType = RecordType::EndRequest;""",
+    """    const RTYPE: RecordType = RecordType::Unknown;""",
+    "R17.3/to_record[EndRequest]", "EndRequest framed as Unknown (type from an associated const)", base="s5-r3")
+mut("x-c18-derived-eq-wrong-role", "C18", "src/protocol/fields.rs",
+    """            Some(Stdin) if self == Self::Filter => Some(Data),""",
+    """            Some(Stdin) if self == Self::Responder => Some(Data),""",
+    "R18.1/next_input_stream", "Responder gets a Data stream", base="s5-r8")
+mut("x-c09-fill-buf-empty", "C09", A,
+    """            Ok(_) => Poll::Ready(Ok(self.into_ref().get_ref().parser.stream_buffer())),""",
+    """            Ok(_) => Poll::Ready(Ok(&[])),""",
+    "R9.1/poll_fill_buf/returns-stream-buffer", "poll_fill_buf always reports end of stream", base="s3-r8")
+mut("x-c13-clone-new-semaphore", "C13", A,
+    """        Self::from_shared(self.config.clone(), self.sema.clone())""",
+    """        Self::from_shared(self.config.clone(), Arc::new(async_lock::Semaphore::new(self.config.max_conns.get())))""",
+    "R13.2/", "a cloned runner gets a fresh semaphore (through the shared private constructor)", base="s4-r6")
